@@ -44,6 +44,36 @@ Definition expected_history (touches : list (N * touch)) (t_end : N) : option (l
   let h' := expire_before (t_end + 1) h in
   if h_ambiguous h' then None else Some (rev (h_out h')).
 
+(* a touch exactly at a pending deadline: the expiry ran first, or the touch did - the histories of BOTH orders, for every
+   such coincidence of the key (None when there are more than 64 of them).  Used where expected_history gives up. *)
+Definition expire_alts (t : N) (h : hist) : list hist :=
+  match h_state h with
+  | Some (Some d) =>
+      if d <? t then [mkHist None ((d, false) :: h_out h) false]
+      else if d =? t then [mkHist None ((d, false) :: h_out h) false; mkHist (h_state h) (h_out h) false]
+      else [h]
+  | _ => [h]
+  end.
+Definition touch_after (t : N) (x : touch) (h : hist) : hist :=
+  match x, h_state h with
+  | TUp ttl _ _, Some _ => mkHist (Some (deadline_of t ttl)) (h_out h) false
+  | TUp ttl na acc, None =>
+      if na && negb acc then h else mkHist (Some (deadline_of t ttl)) ((t, true) :: h_out h) false
+  | TDown, Some _ => mkHist None ((t, false) :: h_out h) false
+  | TDown, None => h
+  end.
+Definition expected_histories (touches : list (N * touch)) (t_end : N) : option (list (list (N * bool))) :=
+  let hs := fold_left (fun acc p =>
+              match acc with
+              | None => None
+              | Some l => let l' := flat_map (fun h => map (touch_after (fst p) (snd p)) (expire_alts (fst p) h)) l in
+                          if Nat.leb (length l') 64 then Some l' else None
+              end) touches (Some [mkHist None [] false]) in
+  match hs with
+  | None => None
+  | Some l => Some (map (fun h => rev (h_out h)) (flat_map (expire_alts (t_end + 1)) l))
+  end.
+
 (* ---- announcer lifecycle: which instances run (spec-level replay of the API calls) ---- *)
 Record lstate := mkL { l_started : bool; l_announcing : list N; l_running : list N }.
 Definition l_init : lstate := mkL false [] [].
@@ -354,7 +384,12 @@ Definition check_C06_key (sc : scenario) (tr : trace) (ins : list (N * input)) (
   if negb (alternates true (map snd actual)) then 1 else
   if conn_lost_coincides ins then 0 else
   match expected_history (subs_touches (sc_insts sc) ins i a k) (sc_end sc) with
-  | None => 0
+  | None =>
+      (* a Subscribe / StopSubscribe exactly at the deadline: either order of the expiry and the touch, nothing else *)
+      match expected_histories (subs_touches (sc_insts sc) ins i a k) (sc_end sc) with
+      | None => 0
+      | Some es => if existsb (hist_eqb actual) es then 0 else 2
+      end
   | Some e => if hist_eqb actual e then 0 else 2
   end.
 
